@@ -19,3 +19,24 @@ package key
 //@ func (*Group).Len(g) (n)
 //@   props C03
 //@   modifies nothing
+
+// ---- C15 / C20 / C13: saving key material ---------------------------------------------------------------
+
+//@ iface (Tomler).TOML(t) (v)
+//@   trusted the TOML mirror structs are checked field by field under C20
+//@   modifies nothing
+
+//@ func Save(filePath, t, secure) (err)
+//@   props C15 C20 C13
+//@   modifies fexists(filePath), fmode(filePath), fcontent(filePath)
+//@   ensures [C15:secure-save-leaves-an-owner-only-file] secure && err == nil ==> fexists(filePath) && fmode(filePath) == 384
+//@   ensures [C20:saved-file-holds-exactly-the-encoding-of-the-value] err == nil ==> (exists v iface :: fcontent(filePath) == tomlOf(v))
+//@   call Encode#0: assert [C20,C13:file-is-empty-when-encoding-starts] fcontent(filePath) == nil
+
+//@ func (*fileStore).SaveKeyPair(f, p) (err)
+//@   props C15
+//@   call Save#0: assert [C15:private-key-is-saved-securely] arg0 == f.privateKeyFile && arg2
+
+//@ func (*fileStore).SaveShare(f, share) (err)
+//@   props C15
+//@   call Save#0: assert [C15:private-share-is-saved-securely] arg0 == f.shareFile && arg2
